@@ -1,5 +1,6 @@
 import NettyVerif.Model.Frame
 import NettyVerif.Model.VarLen
+import NettyVerif.Model.ExactReader
 /-! Driver part for C04 and C08 (frame codecs): model (chunk level) vs implementation = `diff`;
     specification (repaired decoders on the flattened stream; encoder header = body length under the
     decoder's reading) vs implementation = `specviol`. -/
@@ -93,7 +94,44 @@ def verdict (modelStr specStr implStr : String) : String :=
   else if modelStr != implStr then s!"diff model={modelStr.take 160} impl={implStr.take 160}"
   else "ok"
 
+def errName : Option RErr → String
+  | none => "nil" | some .eof => "eof" | some .unexpectedEOF => "ueof" | some .other => "other"
+
+def hexD (b : Bytes) : String := if b.isEmpty then "-" else hex b
+
+/-- the exact reader, call by call, as the consumer of the harness drives it (stops at the first error) -/
+def xrRun (fin : RErr) : List Nat → Int → List Bytes → List String
+  | [], _, _ => []
+  | p :: ps, n, cs =>
+    let r := NettyVerif.ExactR.read n p cs fin
+    let line := s!"{hexD r.1.data}:{errName r.1.err}"
+    match r.1.err with
+    | some _ => [line]
+    | none => line :: xrRun fin ps r.2.1 r.2.2
+
+/-- the property on the implementation's answers alone: what the reader delivered is a prefix of the
+    stream of at most `n` bytes, and a clean end means exactly `n` bytes -/
+def xrSpec (n : Int) (stream : Bytes) (calls : List String) : Option String :=
+  let datas := calls.map (fun c => match c.splitOn ":" with | d :: _ => (if d == "-" then some [] else unhex d) | _ => none)
+  if datas.any (·.isNone) then some "unparsable call" else
+  let got := (datas.map (·.getD [])).flatten
+  let lastErr := match calls.getLast? with | some c => (c.splitOn ":").getLast! | none => "nil"
+  if got != stream.take got.length then some s!"the exact reader delivered {hexD got}, which is not a prefix of the stream {hexD (stream.take (got.length + 4))}"
+  else if (got.length : Int) > (if n < 0 then 0 else n) then some s!"the exact reader delivered {got.length} bytes of a frame declared as {n}"
+  else if lastErr == "eof" && (got.length : Int) < n then some s!"the exact reader reported a clean end of the frame after {got.length} of {n} bytes (a frame cut short is taken for a complete one)"
+  else none
+
 def handle : List String → String
+  | "xr" :: n :: fin :: chunks :: plens :: calls =>
+    match n.toInt?, parseFin fin, (if chunks == "-" then some [] else (chunks.splitOn ",").mapM (fun c => if c == "" then some [] else unhex c)),
+          (if plens == "-" then some [] else (plens.splitOn ",").mapM String.toNat?) with
+    | some n, some fin, some cs, some ps =>
+      match xrSpec n cs.flatten calls with
+      | some v => s!"specviol {v}"
+      | none =>
+        let model := xrRun fin ps n cs
+        if model == calls then "ok" else s!"diff exact reader model=[{" ".intercalate (model.take 8)}] impl=[{" ".intercalate (calls.take 8)}]"
+    | _, _, _, _ => "bad-op"
   | ["cfg", spec, r] =>
     match parseSpec spec with
     | some sp => let m := if validSpec sp then "ok" else "panic"; if m == r then "ok" else s!"diff cfg model={m} impl={r}"
